@@ -408,6 +408,7 @@ def verify_unit(unit, tier="quick", do_canary=True):
         # Constructs Verus ACCEPTS but gives no meaning to: a failed obligation in a function whose extracted text uses one is not a refutation
         # of the code (a harmless rewrite into such a construct would otherwise be a false alarm) -> UNDECIDED, never an alarm.
         #   * string-literal patterns in `match` (`"." => ..`): the scrutinee's text is not related to the pattern by the verifier
+        #   * `for i in a..=b` (not translated by //@forwhile): accepted, but no fact about i is available inside the loop
         m_g = R.mask(g)
         def _meaningless(fn_name):
             for f in fns:
@@ -415,6 +416,12 @@ def verify_unit(unit, tier="quick", do_canary=True):
                     body = g[f.kw:f.end]
                     if re.search(r'(?m)^\s*"(?:[^"\\]|\\.)*"\s*(?:\|\s*"(?:[^"\\]|\\.)*"\s*)*=>', body):
                         return "string-literal match pattern"
+                    mb = R.mask(body)
+                    for lm in re.finditer(r'\bfor\s+[\w(), ]+\s+in\s+[^{;]*\.\.=', mb):
+                        ob = mb.find("{", lm.end())
+                        # a loop the template gave an invariant to is a loop the unit reasons about; only an UNANNOTATED one is meaningless
+                        if ob > 0 and "invariant" not in mb[lm.end():ob]:
+                            return "for loop over an inclusive range without invariant (Verus derives no facts about its variable)"
             return None
         why = [(_meaningless(a.get("fn", "")), a) for a in fails]
         if fails and all(w for (w, _a) in why):
